@@ -7,7 +7,7 @@ M = {
  "M04_dispersion_mix_sign": dict(file="exponax/stepper/_dispersion.py", old="linear_operator = advection_operator * laplace_operator", new="linear_operator = -advection_operator * laplace_operator", props=["C01"]),
  "M05_gradnorm_half": dict(file="exponax/nonlin_fun/_gradient_norm.py", old="u_gradient_norm_squared_hat = 0.5 * self.fft(u_gradient_norm_squared)", new="u_gradient_norm_squared_hat = self.fft(u_gradient_norm_squared)", props=["C03", "C13"]),
  "M06_vort_axis": dict(file="exponax/nonlin_fun/_vorticity_convection.py", old="v_hat = -self.derivative_operator[0:1] * stream_function_hat", new="v_hat = -self.derivative_operator[1:2] * stream_function_hat", props=["C03", "C08", "C09"]),
- "M07_injection_sign": dict(file="exponax/nonlin_fun/_vorticity_convection.py", old="            -injection_mode\n", new="            injection_mode\n", props=["C12"]),
+ "M07_injection_sign": dict(file="exponax/nonlin_fun/_vorticity_convection.py", old="            -derivative_operator[1:2].imag\n", new="            derivative_operator[1:2].imag\n", props=["C12"]),
  "M08_spectrum_bin_edge": dict(file="exponax/_spectral.py", old="mask = (wavenumbers_norm[0] >= lower_limit) & (\n            wavenumbers_norm[0] < upper_limit\n        )", new="mask = (wavenumbers_norm[0] > lower_limit) & (\n            wavenumbers_norm[0] <= upper_limit\n        )", props=["C17"], equivalent=True),
  "M09_interp_scaling": dict(file="exponax/_interpolation.py", old="                mode=\"reconstruction\",\n                indexing=indexing,", new="                mode=\"coef_extraction\",\n                indexing=indexing,", props=["C15"]),
  "M10_fourier_metric_scaling": dict(file="exponax/metrics/_fourier.py", old="        mode=\"reconstruction\",\n    )\n\n    scale = ", new="        mode=\"norm_compensation\",\n    )\n\n    scale = ", props=["C16"]),
@@ -29,8 +29,69 @@ M = {
  "M24_order_dispatch": dict(file="exponax/_base_stepper.py", old="        elif order == 3:\n            self._integrator = ETDRK3(", new="        elif order == 3:\n            self._integrator = ETDRK2(", props=["C02"]),
  "M25_etdrk1_small_z": dict(file="exponax/etdrk/_etdrk_1.py", old="self._coef_1 = dt * mean_c1", new="self._coef_1 = dt * jnp.where(jnp.abs(L_dt) < 1e-6, 1.0 + L_dt, mean_c1)", props=["C02"]),
  # ---- C03
- "M26_conv_nc_scale_sign": dict(file="exponax/nonlin_fun/_convection.py", old="        conv_u = jnp.sum(u * nabla_u, axis=0, keepdims=True)", new="        conv_u = jnp.sum(u * nabla_u[::-1], axis=0, keepdims=True)", props=["C03"]),
+ "M26_conv_nc_scale_sign": dict(file="exponax/nonlin_fun/_convection.py", old="            u * nabla_u,\n            axis=0,", new="            u * nabla_u[::-1],\n            axis=0,", props=["C03"]),
  "M27_ch_square": dict(file="exponax/stepper/reaction/_cahn_hilliard.py", old="u_power = u[0] ** 3", new="u_power = u[0] ** 3 - 1e-3 * u[0] ** 2", props=["C03"]),
  "M28_dealias_after_only": dict(file="exponax/nonlin_fun/_base.py", old="        if self.dealiasing_mask is not None:\n            u_hat = self.dealiasing_mask * u_hat\n        return ifft(", new="        return ifft(", props=["C03"]),
  "M29_gn_meanfix": dict(file="exponax/nonlin_fun/_gradient_norm.py", old="        return f - jnp.mean(f)", new="        return f - jnp.mean(f) * (f.shape[-1] % 2)", props=["C03"]),
+ # ---- C04
+ "M30_scaling_nyquist": dict(file="exponax/_spectral.py", old="            other_wavenumbers == -num_points // 2,", new="            other_wavenumbers == num_points // 2,", props=["C04"]),
+ "M31_grid_endpoint": dict(file="exponax/_utils.py", old="grid_1d = jnp.linspace(0, domain_extent, num_points, endpoint=False)", new="grid_1d = jnp.linspace(0, domain_extent, num_points, endpoint=(num_spatial_dims == 3))", props=["C04"]),
+ "M32_lowpass_strict": dict(file="exponax/_spectral.py", old="mask = jnp.linalg.norm(wavenumbers, axis=0) <= cutoff", new="mask = jnp.linalg.norm(wavenumbers, axis=0) < cutoff", props=["C04"]),
+ "M33_modes_slices_odd": dict(file="exponax/_spectral.py", old="        left_slice = slice(None, nyquist_mode + 1)\n        right_slice = slice(-nyquist_mode, None)", new="        left_slice = slice(None, nyquist_mode)\n        right_slice = slice(-nyquist_mode, None)", props=["C04", "C15"]),
+ "M34_wavenumber_leading_rfft": dict(file="exponax/_spectral.py", old="    other_wavenumbers = jnp.fft.fftfreq(num_points, 1 / num_points)\n\n    wavenumber_list", new="    other_wavenumbers = jnp.abs(jnp.fft.fftfreq(num_points, 1 / num_points))\n\n    wavenumber_list", props=["C04", "C01", "C05"]),
+ # ---- C05
+ "M35_derivative_layout": dict(file="exponax/_spectral.py", old="        field_der_hat = field_hat[:, None] * derivative_operator_fixed[None, ...]", new="        field_der_hat = field_hat[None, :] * derivative_operator_fixed[:, None]", props=["C05"]),
+ "M36_poisson_sign": dict(file="exponax/_poisson.py", old="        return -self._inv_operator * f_hat", new="        return -self._inv_operator * f_hat if self.num_spatial_dims < 3 else self._inv_operator * f_hat", props=["C05"]),
+ "M37_poisson_mean": dict(file="exponax/_poisson.py", old="self._inv_operator = jnp.where(operator == 0, 0.0, 1 / operator)", new="self._inv_operator = jnp.where(operator == 0, 1.0, 1 / operator)", props=["C05"]),
+ "M38_gip_order": dict(file="exponax/_spectral.py", old="        derivative_operator**order,\n    )\n\n    # Need to add singleton channel axis", new="        derivative_operator ** min(order, 3),\n    )\n\n    # Need to add singleton channel axis", props=["C05"]),
+ # ---- C06
+ "M39_value_branch": dict(file="exponax/stepper/_burgers.py", old="        self.diffusivity = diffusivity\n", new="        self.diffusivity = diffusivity if isinstance(diffusivity, float) else float(diffusivity)\n", props=["C06", "C07"]),
+ "M40_cached_constant": dict(file="exponax/nonlin_fun/_polynomial.py", old="        u = self.ifft(u_hat)\n        u_power = 1.0", new="        u = self.ifft(u_hat)\n        if not hasattr(type(self), \"_first_shape\"):\n            type(self)._first_shape = u.shape\n        u = u if u.shape == type(self)._first_shape else u * 1.0000001\n        u_power = 1.0", props=["C06"]),
+ # ---- C07
+ "M41_stop_gradient": dict(file="exponax/stepper/_kuramoto_sivashinsky.py", old="        ) - self.fourth_order_scale * build_laplace_operator(\n            derivative_operator, order=4\n        )\n        return linear_operator\n\n    def _build_nonlinear_fun(\n        self,\n        derivative_operator: Complex[Array, \"D ... (N//2)+1\"],\n    ) -> GradientNormNonlinearFun:", new="        ) - __import__(\"jax\").lax.stop_gradient(self.fourth_order_scale) * build_laplace_operator(\n            derivative_operator, order=4\n        )\n        return linear_operator\n\n    def _build_nonlinear_fun(\n        self,\n        derivative_operator: Complex[Array, \"D ... (N//2)+1\"],\n    ) -> GradientNormNonlinearFun:", props=["C07"]),
+ "M42_wave_where_grad": dict(file="exponax/stepper/_wave.py", old="        h_hat = w_hat / (1j * self.speed_of_sound * k_guard)", new="        h_hat = jnp.where(self.wavenumber_norm == 0, 0.0, w_hat / (1j * self.speed_of_sound * self.wavenumber_norm))", props=["C07", "C01"]),
+ # ---- C08
+ "M43_mask_axis0": dict(file="exponax/_spectral.py", old="        for wn_grid in wavenumbers:\n            mask = mask & (jnp.abs(wn_grid) <= cutoff)", new="        for wn_grid in wavenumbers[: max(1, len(wavenumbers) - 1)] if len(wavenumbers) == 3 else wavenumbers:\n            mask = mask & (jnp.abs(wn_grid) <= cutoff)", props=["C08", "C03"]),
+ "M44_burgers_channel": dict(file="exponax/nonlin_fun/_convection.py", old="            u[None, :] * nabla_u,\n            axis=1,", new="            u[None, :] * nabla_u * (1.0 if u.shape[0] < 3 else jnp.asarray([1.0, 1.0, 1.001]).reshape((1, 3) + (1,) * 3)),\n            axis=1,", props=["C08", "C03"]),
+ # ---- C09
+ "M45_ch_laplace": dict(file="exponax/stepper/reaction/_cahn_hilliard.py", old="        u_power_laplace_hat = self.laplace_operator * u_power_hat", new="        u_power_laplace_hat = (self.laplace_operator - 1e-3) * u_power_hat", props=["C09", "C03"]),
+ "M46_etdrk4_weights": dict(file="exponax/etdrk/_etdrk_4.py", old="        self._coef_6 = dt * mean_c6", new="        self._coef_6 = dt * mean_c6 * 1.001", props=["C09", "C02"]),
+ # ---- C10
+ "M47_leray_sign": dict(file="exponax/nonlin_fun/_leray.py", old="        return u_hat + grad_pressure_hat", new="        return u_hat + grad_pressure_hat * (1.0 if self.num_spatial_dims == 3 else 0.999)", props=["C10"]),
+ # ---- C11
+ "M50_hyper_sign_mixed": dict(file="exponax/stepper/_hyper_diffusion.py", old="                -self.hyper_diffusivity * laplace_operator * laplace_operator", new="                self.hyper_diffusivity * laplace_operator * laplace_operator", props=["C11", "C01"]),
+ "M51_wave_unnormal": dict(file="exponax/stepper/_wave.py", old="        pos = (1 / jnp.sqrt(2)) * (w_hat + v_hat)\n        neg = (1 / jnp.sqrt(2)) * (w_hat - v_hat)", new="        pos = (1 / 2) * (w_hat + v_hat)\n        neg = (1 / 2) * (w_hat - v_hat)", props=["C11", "C01"]),
+ # ---- C12
+ "M52_forcing_channel": dict(file="exponax/nonlin_fun/_projected_convection.py", old="        self.injection = jnp.concatenate([injection_single, zeros, zeros], axis=0)", new="        self.injection = jnp.concatenate([zeros, zeros, injection_single], axis=0)", props=["C12"]),
+ "M53_forced_dt": dict(file="exponax/_forced_stepper.py", old="        u_hat_with_force = u_hat + self.stepper.dt * f_hat", new="        u_hat_with_force = u_hat + f_hat", props=["C12"]),
+ # ---- C13
+ "M54_normalize_power": dict(file="exponax/stepper/generic/_utils.py", old="        c * dt / (domain_extent**i) for i, c in enumerate(coefficients)", new="        c * dt / (domain_extent ** max(i - 1, 0) * domain_extent ** min(i, 1)) if i < 4 else c * dt / domain_extent ** (i - 1) for i, c in enumerate(coefficients)", props=["C13"]),
+ "M55_gn_difficulty": dict(file="exponax/stepper/generic/_utils.py", old="        normalized_gradient_norm_scale\n        * maximum_absolute\n        * num_points**2\n        * num_spatial_dims", new="        normalized_gradient_norm_scale\n        * maximum_absolute\n        * num_points\n        * num_spatial_dims", props=["C13"]),
+ "M56_ks_sign": dict(file="exponax/stepper/_kuramoto_sivashinsky.py", old="            scale=self.gradient_norm_scale,\n        )\n\n\nclass KuramotoSivashinskyConservative", new="            scale=abs(self.gradient_norm_scale),\n        )\n\n\nclass KuramotoSivashinskyConservative", props=["C13"]),
+ # ---- C14
+ "M57_rollout_emit_prev": dict(file="exponax/_utils.py", old="        def scan_fn(u, aux):\n            u_next = stepper_fn(u, aux)\n            return u_next, u_next\n\n        def rollout_stepper_fn(u_0, aux):", new="        def scan_fn(u, aux):\n            u_next = stepper_fn(u, aux)\n            return u_next, u\n\n        def rollout_stepper_fn(u_0, aux):", props=["C14"]),
+ "M58_substack_slice": dict(file="exponax/_utils.py", old="    n_sub_trjs = n_time_steps - sub_len + 1", new="    n_sub_trjs = max(n_time_steps - sub_len, 1)", props=["C14"]),
+ "M59_constant_aux_roll": dict(file="exponax/_utils.py", old="            final, _ = jax.lax.scan(scan_fn, u_0, aux, length=n)\n            return final", new="            final, _ = jax.lax.scan(scan_fn, u_0, aux, length=n, reverse=not constant_aux)\n            return final", props=["C14"]),
+ # ---- C15
+ "M60_map_rescale": dict(file="exponax/_interpolation.py", old="    if (old_num_points > new_num_points) and (new_num_points % 2 == 0) and oddball_zero:", new="    if (old_num_points > new_num_points) and (new_num_points % 2 == 1) and oddball_zero:", props=["C15"]),
+ # ---- C16
+ "M61_spatial_scale": dict(file="exponax/metrics/_spatial.py", old="    scale = (domain_extent / num_points) ** num_spatial_dims", new="    scale = (domain_extent / num_points) ** min(num_spatial_dims, 2)", props=["C16"]),
+ "M62_band_mask": dict(file="exponax/metrics/_fourier.py", old="            cutoff=low - 1,  # Need to subtract 1 because the cutoff is inclusive", new="            cutoff=low,", props=["C16"]),
+ "M63_corr_mean": dict(file="exponax/metrics/_correlation.py", old="    correlation = jnp.mean(channel_wise_correlation)", new="    correlation = jnp.sum(channel_wise_correlation) / max(channel_wise_correlation.shape[0] - 1, 1)", props=["C16"]),
+ # ---- C17
+ "M64_bin_floor": dict(file="exponax/_spectral.py", old="        lower_limit = k - dk / 2\n        upper_limit = k + dk / 2", new="        lower_limit = k\n        upper_limit = k + dk", props=["C17"]),
+ "M65_power_recon": dict(file="exponax/_spectral.py", old="        quantity = 0.5 * magnitude * magnitude_norm_compensated", new="        quantity = 0.5 * magnitude * magnitude", props=["C17"]),
+ # ---- C18
+ "M66_std_before_mean": dict(file="exponax/ic/_base_ic.py", old="    if zero_mean:\n        ic = ic - jnp.mean(ic)\n    if std_one:\n        ic = ic / jnp.std(ic)", new="    if std_one:\n        ic = ic / jnp.sqrt(jnp.mean(ic**2))\n    if zero_mean:\n        ic = ic - jnp.mean(ic)", props=["C18"]),
+ "M67_key_reuse": dict(file="exponax/ic/_multi_channel.py", old="                jax.random.split(key, len(self.ic_generators)),\n                strict=False,\n            )\n        ]\n        return jnp.concatenate(u_list, axis=0)", new="                [key] * len(self.ic_generators),\n                strict=False,\n            )\n        ]\n        return jnp.concatenate(u_list, axis=0)", props=["C18"]),
+ "M68_grf_exponent": dict(file="exponax/ic/_gaussian_random_field.py", old="wavenumber_norm_grid, -self.powerlaw_exponent / 2.0", new="wavenumber_norm_grid, -self.powerlaw_exponent / (2.0 if self.num_spatial_dims < 3 else 3.0)", props=["C18"]),
+ # ---- C19
+ "M69_f32_hotpath": dict(file="exponax/etdrk/_etdrk_2.py", old="        u_nonlin_hat = self._nonlinear_fun(u_hat)\n        u_stage_1_hat = self._exp_term * u_hat + self._coef_1 * u_nonlin_hat", new="        u_nonlin_hat = self._nonlinear_fun(u_hat).astype(jnp.complex64)\n        u_stage_1_hat = self._exp_term * u_hat + self._coef_1 * u_nonlin_hat", props=["C19", "C02"]),
+ "M70_closed_form_small_z": dict(file="exponax/etdrk/_etdrk_1.py", old="        self._coef_1 = dt * mean_c1", new="        self._coef_1 = dt * jnp.where(jnp.abs(L_dt) > 1e8, (jnp.exp(L_dt) - 1) / jnp.where(L_dt == 0, 1.0, L_dt) * jnp.abs(L_dt) / jnp.abs(L_dt), mean_c1)", props=["C19"], equivalent=True),
+ "M71_exp_overflow": dict(file="exponax/etdrk/_etdrk_3.py", old="        self._half_exp_term = jnp.exp(0.5 * dt * linear_operator)", new="        self._half_exp_term = jnp.exp(dt * linear_operator) / jnp.exp(0.5 * dt * linear_operator)", props=["C19", "C02"]),
+ # ---- C20
+ "M72_shape_check_lt": dict(file="exponax/_base_stepper.py", old="        if u.shape != expected_shape:", new="        if u.ndim != len(expected_shape) or any(a < b for a, b in zip(u.shape, expected_shape)):", props=["C20"]),
+ "M73_repeated_no_check": dict(file="exponax/_repeated_stepper.py", old="        if u.shape != expected_shape:", new="        if u.shape[1:] != expected_shape[1:]:", props=["C20", "C14"]),
+ "M74_dim_guard": dict(file="exponax/nonlin_fun/_vorticity_convection.py", old="        if num_spatial_dims != 2:", new="        if num_spatial_dims < 2:", props=["C20"]),
+ "M75_warn_instead": dict(file="exponax/_spectral.py", old="    if order % 2 != 1:\n        raise ValueError(\"Order must be odd.\")", new="    if order % 2 != 1:\n        import warnings\n\n        warnings.warn(\"Order must be odd.\", stacklevel=2)", props=["C20"]),
 }
